@@ -1,6 +1,6 @@
 CONSTANTS
   Scenarios <- ScnQuick
-  FixWait = FALSE
+  FixF10 = FALSE
   GenHist = FALSE
 INIT Init
 NEXT Next
